@@ -10,6 +10,7 @@ CONSTANTS MaxEp = 2
           KF_NotFound = TRUE
           Unreliable = FALSE
           AllowExit = TRUE
+          MaxSockFail = 1
           KF_Overtake = FALSE
 INVARIANT ConnectedSound
 INVARIANT ReadyIffEnterConnected
